@@ -749,8 +749,8 @@ def c14(ctx, tr):
             res['skipped'] = 'harness-timeout'
             return res
         if any(r_.get('fault') == 'crash' for r_ in rounds) and \
-                exc['op'] == 'solve' and \
-                'mpsim-injected-crash' in (e['msg'] or ''):
+                exc['op'] == 'solve':
+            # (whatever its type: an implementation may wrap PuLP's error)
             # the back end died and the caller was told so by the very
             # exception PuLP raised: nothing is presented as a result
             res['probes']['crash-propagated-to-caller'] = 1
@@ -973,9 +973,11 @@ def c18(ctx, tr):
         res['probes']['second-solver-object-in-between'] = 1
     # solves in which the back end was made to die: the caller got PuLP's
     # exception; what the getters do until the next solve is not judged
+    crash_rounds = set(r_['solve_index'] for r_ in tr.rounds
+                       if r_.get('fault') == 'crash')
     crashed = set(c['solve_index'] for c in tr.calls
                   if c['op'] == 'solve' and not c['ok'] and
-                  'mpsim-injected-crash' in (c['exc']['msg'] or ''))
+                  c['solve_index'] in crash_rounds)
     exc = None
     for c in tr.calls:
         if not c['ok'] and c.get('solve_index') not in crashed:
